@@ -22,6 +22,24 @@ def run(ctx):
         n += len(obs)
     note += (f" aggregate_flox.mean / nanmean (requested dtype floating / integer, fill given / not): {n} obligations: the division is admissible under NumPy's casting rule for the dtype of the sums "
              "(no UFuncTypeError), the result keeps the requested dtype, floating: mean * count == sum, integer: the exact mean truncated towards zero; sums and counts over the same codes, data and size. ")
+    from ..contracts import nanfill as NF
+
+    m = 0
+    for c, callees, models in NF.all_nanfill():
+        orig = P.Prims.register_defaults
+
+        def reg(self, orig=orig, models=models):
+            orig(self)
+            models(self)
+
+        P.Prims.register_defaults = reg
+        try:
+            ex, obs = add_to_ctx(ctx, c, callees)
+        finally:
+            P.Prims.register_defaults = orig
+        m += len(obs)
+    note += (f" _nan_grouped_op on integer data (nanmax / nanmin x requested dtype absent / different): {m} obligations: the neutral replacement for NaN is the extreme of the DATA's dtype "
+             "(representable where np.where writes it), the grouped extreme is called once on the masked copy with the caller's keyword arguments. ")
     from ..pyvc import conformance
 
     conformance.add_to_ctx(ctx, ["numpy.divide"])
